@@ -51,6 +51,22 @@ def gen_tool(rng, tier, index):
             'interrupts': interrupts, 'N': prng.log_uniform(rng, 1, 3000), 'limit': rng.choice(('-m', '-m', '-M')),
             'verbose': rng.choice((0, 0, 1, 2)), 'decimal': rng.random() < 0.3, 'stats': rng.random() < 0.2, 'map': rng.random() < 0.2}
 
+def _selfmod(rng, e):
+    """An instruction that replaces its own first byte with EI / DD / FD (the run loops decide from a byte whether
+    the interrupt must wait one instruction: the byte as it is after execution).  -> T-states up to its end."""
+    v = rng.choice((0xFB, 0xFB, 0xDD, 0xFD))
+    form = rng.randrange(3)
+    a = e.pc
+    if form == 0:
+        e.emit(0x21); e.word((a + 3) & 0xFFFF); e.emit(0x36, v)                       # LD HL,a+3; a+3: LD (HL),v
+        return 20
+    if form == 1:
+        e.emit(0x3E, v, 0x32); e.word((a + 2) & 0xFFFF)                               # LD A,v; a+2: LD (a+2),A
+        return 20
+    e.emit(0x01, v, 0xED, 0xED, 0x73); e.word(0xFFF0)                                 # LD BC,0xEDvv; LD (0xFFF0),SP
+    e.emit(0x31); e.word((a + 12) & 0xFFFF); e.emit(0xC5, 0xED, 0x7B); e.word(0xFFF0)       # LD SP,a+12; a+10: PUSH BC; LD SP,(0xFFF0)
+    return 51
+
 def gen_batch(rng, tier, index):
     """simulator.run(start, stop, interrupts) on every replica from the same state (the four separately
     written interrupt schedulers); a straight-line program so that the stop address is reached."""
@@ -61,6 +77,11 @@ def gen_batch(rng, tier, index):
     use_int = rng.random() < 0.85
     iff = rng.choice((0, 1, 1))
     iff0 = iff
+    lead_t = None
+    if use_int and rng.random() < 0.15:
+        # the program opens with the self-modifying instruction, timed (below) to end inside the INT-active window
+        lead_t = _selfmod(rng, e)
+        iff = iff0 = 1
     for _ in range(rng.randrange(1, 40)):
         k = rng.random()
         if k < 0.6:
@@ -80,6 +101,8 @@ def gen_batch(rng, tier, index):
             e.emit(0x01); e.word(rng.choice((1, 2, 9, 300))); e.emit(0x21); e.word(rng.randrange(0x10000)); e.emit(0x11); e.word(rng.randrange(0x4000, 0x10000)); e.emit(0xED, rng.choice((0xB0, 0xB8)))
         elif k < 0.95:
             e.emit(0xED, rng.choice((0x57, 0x5F)))
+        elif k < 0.97:
+            _selfmod(rng, e)
         else:
             for _ in range(rng.randrange(1, 4)):
                 e.emit(rng.choice((0xDD, 0xFD)))
@@ -94,6 +117,8 @@ def gen_batch(rng, tier, index):
     regs[27] = 2
     regs[26] = iff0
     regs[25] = rng.choice((frame - rng.randrange(1, 400), rng.randrange(0, 40), rng.randrange(frame), rng.randrange(frame) + frame * rng.randrange(1, 300)))
+    if lead_t is not None:
+        regs[25] = frame * rng.choice((1, 1, 2, 240, (1 << 32) // frame + 1)) - lead_t + rng.randrange(0, 31)
     return {'kind': 'batch', 'machine': machine, 'mem': mem, 'regs': regs, 'tracer': {'present': True, 'in_r_c': True, 'ini': True}, 'reads': gen_lock.gen_reads(rng),
             'stop': stop, 'interrupts': use_int, 'replicas': ['py', 'pyfast', 'c', 'pycmio', 'ccmio']}
 
